@@ -4,6 +4,7 @@ package interp
 // arguments are concrete, and values of external package-level variables.
 
 import (
+	"context"
 	"bytes"
 	"errors"
 	"go/types"
@@ -113,6 +114,8 @@ var externalGlobals = map[string]func(i *interpreter) value{
 	"net/http.ErrNotMultipart":       func(i *interpreter) value { return native{http.ErrNotMultipart} },
 	"net/http.ErrMissingFile":        func(i *interpreter) value { return mkNativeErr(http.ErrMissingFile) },
 	"net/http.DefaultClient":         func(i *interpreter) value { return native{http.DefaultClient} },
+	"context.Canceled":               func(i *interpreter) value { return mkNativeErr(context.Canceled) },
+	"context.DeadlineExceeded":       func(i *interpreter) value { return mkNativeErr(context.DeadlineExceeded) },
 }
 
 type randReaderTag struct{}
